@@ -129,6 +129,7 @@ impl ProgressBar {
         {
             let mut state = self.state();
             state.state.set_pos(pos);
+            state.state.started_pos = pos;
             // The bar starts out at this position: getting there is not progress as far as the
             // rate estimate is concerned.
             state.reset(Instant::now(), Reset::Eta);
